@@ -174,9 +174,38 @@ def _unwrap_seq(it):
     return it
 
 
+def rename_binder(v, d_from: int, d_to: int):
+    if d_from == d_to or not isinstance(v, tuple) or not v:
+        return v
+    if v[0] in ("bv", "idx", "first", "acc") and len(v) > 1 and v[1] == d_from:
+        return (v[0], d_to) + v[2:]
+    if v[0] in ("comp", "fold") and v[1] == d_from:
+        return v  # an inner binder of the same depth shadows
+    return tuple(rename_binder(x, d_from, d_to) for x in v)
+
+
 def mk_comp(d, it, items, conds=()):
     items = tuple(items)
     it = _unwrap_seq(it)
+    # a comprehension over an unfiltered one-item comprehension is one comprehension
+    if it[0] == "comp" and len(it[3]) == 1 and not it[4] and it[3][0][0] not in ("spread", "when"):
+        inner_item = rename_binder(it[3][0], it[1], d)
+        inner_iter = it[2]
+
+        def sub(v):
+            if isinstance(v, tuple) and v:
+                if v[0] == "bv" and v[1] == d:
+                    out = inner_item
+                    for i in v[2:]:
+                        out = mk_sub(out, C(i))
+                    return out
+                if v[0] in ("comp", "fold") and v[1] == d:
+                    return v
+                new = tuple(sub(x) for x in v)
+                return renorm(new) if new != v else v
+            return v
+
+        return mk_comp(d, inner_iter, tuple(sub(i) for i in items), tuple(sub(c) for c in conds))
     if len(items) == 1 and items[0][0] == "when":
         conds = tuple(conds) + (items[0][1],)
         items = (items[0][2],)
@@ -506,6 +535,7 @@ class AV:
         self._budget = 200000
         self._imp: dict = {}
         self._nt = None
+        self._inst: dict = {}
         self.nt_of: dict = {}
         self.attr_stores: list = []  # (function, value of the object, attribute, value stored, node)
 
@@ -833,6 +863,24 @@ class AV:
                 carried[acc] = old
             elif not has(new, "acc") and not has(new, "bv") and not has(new, "idx") and not has(new, "first"):
                 carried[acc] = mk_if(("first", d), old, new)
+        # integer counters advanced by one (always, or under a condition): their value in an iteration is the position
+        # of the element among all elements (resp. among those satisfying the condition)
+        counters = {}
+        if not jumps:
+            for k, old in pre.items():
+                acc = ("acc", d, k)
+                new = inner.env.get(k)
+                if old is None or new is None or k in tnames or old[0] != "c" or not isinstance(old[1], int) or isinstance(old[1], bool):
+                    continue
+                inc = ("op", "+", acc, C(1))
+                inc2 = ("op", "+", C(1), acc)
+                if new in (inc, inc2):
+                    counters[k] = (None, old)
+                elif new[0] == "if" and new[3] == acc and new[2] in (inc, inc2):
+                    counters[k] = (new[1], old)
+                elif new[0] == "if" and new[2] == acc and new[3] in (inc, inc2):
+                    counters[k] = (mk_not(new[1]), old)
+        it_for = {}
         for k in assigned:
             if k in tnames:
                 fr.env[k] = unk("loop variable used after the loop")
@@ -840,6 +888,41 @@ class AV:
             new = inner.env.get(k)
             old = pre.get(k)
             if new is None:
+                continue
+            if k in counters:
+                cnd, start = counters[k]
+                n_el = ("call", "len", (it if cnd is None else mk_comp(d, it, (("bv", d),), (cnd,)),), ())
+                fr.env[k] = n_el if start == C(0) else ("op", "+", start, n_el)
+                continue
+            used = [c_ for c_ in counters if has(new, "acc") and ("acc", d, c_) in find_all(new, "acc")]
+            if used and not jumps:
+                # items appended under the counter's own condition see the position among the selected elements
+                cnds = {counters[c_][0] for c_ in used}
+                acc = ("acc", d, k)
+                if len(cnds) == 1 and new[0] == "list" and new[1] and new[1][0] == ("spread", acc):
+                    cnd = cnds.pop()
+                    items_ = new[1][1:]
+                    ok_ = True
+                    stripped = []
+                    for it_ in items_:
+                        if cnd is None:
+                            stripped.append(it_)
+                        elif it_[0] == "when" and it_[1] == cnd:
+                            stripped.append(it_[2])
+                        else:
+                            ok_ = False
+                    if ok_:
+                        mapping_ = {}
+                        for c_ in used:
+                            mapping_[("acc", d, c_)] = ("idx", d, counters[c_][1])
+                        others_ = {a_: v_ for a_, v_ in carried.items() if a_ != acc}
+                        body_ = tuple(subst(subst(x_, mapping_), others_) for x_ in stripped)
+                        if not has(("x",) + body_, "acc"):
+                            src = it if cnd is None else mk_comp(d, it, (("bv", d),), (cnd,))
+                            base_ = _as_events(old) if old[0] in ("dict", "call") and _as_events(old) is not None else old
+                            fr.env[k] = mk_list(_spread_items(base_) + (("spread", mk_comp(d, src, body_)),))
+                            continue
+                fr.env[k] = unk(f"{k} depends on a loop counter in a way that is not understood")
                 continue
             if jumps:
                 fr.env[k] = unk("loop with break / continue / return / else")
@@ -1103,7 +1186,7 @@ class AV:
             return self._comp(n, n.elt, fr)
         if isinstance(n, ast.DictComp):
             v = self._comp(n, ast.Tuple([n.key, n.value], ast.Load()), fr)
-            return ("call", "dict", (v,), ())
+            return _pairs_to_events(v)
         if isinstance(n, ast.Lambda):
             return ("fn", _Closure(n, fr.env, fr.rel, fr.func))
         if isinstance(n, ast.Call):
@@ -1152,6 +1235,53 @@ class AV:
         if origin and not origin.startswith("gotranx"):
             return ("sym", canon_sym(origin))
         return ("sym", name)
+
+    def instance_attr(self, cls_name: str, attr: str):
+        """Value that __init__ of the class (or of a package base class) stores in self.<attr>, with the constructor's
+        parameters expressed through the attributes that keep them (remove_unused -> self.remove_unused)."""
+        key = (cls_name, attr)
+        if key in self._inst:
+            return self._inst[key]
+        self._inst[key] = None
+        seen, queue = set(), [cls_name]
+        while queue:
+            c = queue.pop(0)
+            if c in seen:
+                continue
+            seen.add(c)
+            for (rel, qn), cobj in self.sm.classes.items():
+                if qn != c:
+                    continue
+                init = cobj.methods.get("__init__")
+                queue.extend(b.split(".")[-1] for b in cobj.bases)
+                if init is None:
+                    continue
+                sub = AV(self.sm, inline=self.inline)
+                _, env = sub.returned(init)
+                val = env.get(f"self.{attr}")
+                if val is None:
+                    continue
+                keep = {}
+                for k, x in env.items():
+                    if k.startswith("self.") and x[0] == "sym" and x[1] in init.params:
+                        keep.setdefault(x, ("sym", k))
+                self._inst[key] = ("held", subst(val, keep) if keep else val, tuple(keep.items()))
+                return self._inst[key]
+        return None
+
+    def _apply_held(self, held, args, kwargs, fr: Frame):
+        if held[0] == "held":
+            r = self._apply_held(held[1], args, kwargs, fr)
+            return subst(r, dict(held[2])) if (r is not None and held[2]) else r
+        if held[0] == "fn":
+            return self._apply_closure(held[1], args, kwargs, Frame(None, fr.rel, {}, fr.depth, fr.binder))
+        if held[0] == "if":
+            a = self._apply_held(held[2], args, kwargs, fr)
+            b = self._apply_held(held[3], args, kwargs, fr)
+            if a is None or b is None:
+                return None
+            return mk_if(held[1], a, b)
+        return None
 
     def _namedtuples(self) -> dict:
         if self._nt is None:
@@ -1268,6 +1398,12 @@ class AV:
             v = self._apply_func(callee, args, kwargs, fr, self._ev(fn.value, fr) if bound_self else None)
             if v is not None:
                 return v
+        if callee is None and isinstance(fn, ast.Attribute) and isinstance(fn.value, ast.Name) and fn.value.id == "self" and fr.func is not None and "." in fr.func.qualname and fr.depth < MAX_DEPTH:
+            held = self.instance_attr(fr.func.qualname.split(".")[0], fn.attr)
+            if held is not None:
+                v = self._apply_held(held, args, kwargs, fr)
+                if v is not None:
+                    return v
         ret_nt = None
         if callee is not None and callee.node.returns is not None:
             rn = norm(callee.node.returns).split(".")[-1].strip("'\"")
@@ -1310,6 +1446,10 @@ class AV:
                 return ("list", ()) if name != "dict" else ("dict", ())
             if name == "dict" and not args:
                 return ("dict", tuple((C(k), v) for k, v in kwargs))
+            if name == "dict" and len(args) == 1 and not kwargs:
+                ev_ = _pairs_to_events(_unwrap_seq(args[0]))
+                if ev_[0] == "list":
+                    return ev_
             if name == "len" and len(args) == 1:
                 a = args[0]
                 if a[0] == "list" and not any(i[0] in ("spread", "when") for i in a[1]):
@@ -1699,6 +1839,18 @@ def _is_str(v) -> bool:
     return (v[0] == "c" and isinstance(v[1], str)) or v[0] in ("s", "join") or (v[0] == "if" and _is_str(v[2]) and _is_str(v[3])) or (v[0] == "call" and v[1] in ("indent", "dedent"))
 
 
+def _pairs_to_events(v):
+    """a comprehension / list of (key, value) pairs as the store events of the mapping it builds"""
+    if v[0] == "comp" and len(v[3]) == 1 and v[3][0][0] == "list" and len(v[3][0][1]) == 2:
+        k, x = v[3][0][1]
+        return mk_list((("spread", ("comp", v[1], v[2], (("kv", k, x),), v[4])),))
+    if v[0] == "list" and all(i[0] == "list" and len(i[1]) == 2 for i in v[1]):
+        if all(i[1][0][0] == "c" for i in v[1]):
+            return ("dict", tuple((i[1][0], i[1][1]) for i in v[1]))
+        return ("list", tuple(("kv", i[1][0], i[1][1]) for i in v[1]))
+    return ("call", "dict", (v,), ())
+
+
 def _as_events(v):
     """A mapping under construction as the list of its store events ('kv', key, value) / ('kadd', key, value)."""
     if v[0] == "dict":
@@ -1841,3 +1993,17 @@ def _flat_hole(v) -> str:
         if sep is not None and seq[0] == "comp":
             return _flat_hole(("join", v[1], ("list", (("spread", seq),))))
     return HO + show(v) + HC
+
+
+def compatible(v, want) -> bool:
+    """Could v be `want` once its not-understood parts (unk terms) are known?  unk matches anything; everything else
+    must agree structurally.  `not compatible` is a definite difference even for a partly unknown value."""
+    if isinstance(v, tuple) and v and v[0] == "unk":
+        return True
+    if isinstance(want, tuple) and want and want[0] == "unk":
+        return True
+    if isinstance(v, tuple) and isinstance(want, tuple):
+        if len(v) != len(want):
+            return False
+        return all(compatible(a, b) for a, b in zip(v, want))
+    return v == want
